@@ -15,13 +15,13 @@ CHECKS = {
    "DESIGN.md §5 C19"),
  "C20": (True,
    "black-box monitoring of the real abasic-lsp child process over JSON-RPC: liveness, UTF-16 bounds oracle, equality with the in-process analyzer",
-   "Scripted sessions (initialize, didOpen/didChange over several URIs, semanticTokens/full, shutdown, exit) are run against the real server binary; after every notification a publishDiagnostics must arrive and the child must be alive; every range and decoded semantic token must lie inside the document measured in UTF-16 units, tokens ordered, non-overlapping and typed within the advertised legend; diagnostics and tokens must equal the in-process analyzer's results converted by an independent byte->UTF-16 model.",
+   "Scripted sessions (initialize, didOpen/didChange/didClose over several URIs, semanticTokens/full, bursts of notifications followed by a barrier request, shutdown, exit) are run against the real server binary; every notification must be answered by a publishDiagnostics (in a burst: all of them, in order, once the barrier is answered) and the child must be alive; every range and decoded semantic token must lie inside the document measured in UTF-16 units, tokens ordered, non-overlapping and typed within the advertised legend; diagnostics and tokens must equal the in-process analyzer's results converted by an independent byte->UTF-16 model.",
    "Debug build of the server on stdio; missing responses while the child is alive are inconclusive; no lone CR in documents.",
    "DESIGN.md §5 C20"),
  "C05": (True,
    "contract monitor over analyzer executions (catch_unwind + well-formedness oracle on every diagnostic and token range), exhaustive over short sequences of line kinds",
    "SourceFileAnalyzer::analyze runs on every sequence of up to 3 lines from 22 line kinds over two line numbers (so every duplicate / emptied / untokenizable redefinition shape is present), on random structured files, arbitrary UTF-8 files and (partially typed) generated programs; every diagnostic must map to a range on the line it names, in bounds and on char boundaries, and per-line token ranges must be ordered and non-overlapping; panics are caught per file.",
-   "Native-stack exhaustion through the analyzer is covered by C01's child-process depth grid.",
+   "Native-stack exhaustion through the analyzer has its own child-process depth workload here (monitor and ship builds), in addition to C01's grid.",
    "DESIGN.md §5 C05"),
  "C06": (True,
    "differential monitoring of two implementations: analyzer verdict vs observed execution outcome, over generated lines and over programs run along all forced branches",
@@ -36,12 +36,12 @@ CHECKS = {
  "C15": (True,
    "metamorphic pairs: analyzer-loaded vs typed-in interpreter compared per turn with snapshot hooks; real abasic binary run as child processes in file mode vs interactive mode under all option combinations",
    "In-process, files of numbered tokenizable lines (with duplicates, shuffling, token-soup lines, CR endings) are loaded through the analyzer and typed line by line; LIST and every turn of RUN must be identical including runtime snapshots. The real CLI binary is executed as a child for all 8 combinations of -w/-t/--skip-check in file mode and interactive mode; stdout and stderr must match after removing banner, prompts and static-analysis lines.",
-   "CLI = debug build with hooks off, HOME redirected, NO_COLOR=1, piped stdio; exit codes not compared; no RND in CLI programs.",
+   "CLI = debug build with hooks off, HOME redirected, NO_COLOR=1, piped stdio; exit codes not compared; banner and prompt are learned from the binary; CLI programs use RND (both modes seed with 0 elapsed milliseconds).",
    "DESIGN.md §5 C15"),
  "C01": (True,
-   "crash/contract monitor at the API boundary (catch_unwind + post-conditions + snapshot tripwires + liveness probe), rustc overflow-checks as arithmetic sanitizer, child-process probes for native-stack exhaustion",
-   "Hostile protocol-respecting session histories and a boundary-value catalogue run on a build with overflow checks and debug assertions (and on the shipped optimisation profile); every host call is wrapped, every error value must leave the interpreter idle with a renderable caret, snapshot invariants run after every call and a liveness probe ends every history. Nested constructs to depth 100000 are probed in child processes on 1/2/8 MiB stacks through the evaluator and the static analyzer, so aborts are observed as signals.",
-   "wasm's 1 MiB stack is emulated by thread size on the ship profile; the debug profile (largest frames) is not probed; Miri was not needed (no unsafe code).",
+   "crash/contract monitor at the API boundary (catch_unwind + post-conditions + snapshot tripwires + liveness probe), rustc overflow-checks and debug assertions as arithmetic / unsafe-precondition sanitizer, valgrind memcheck over the optimised build, child-process probes for native-stack exhaustion, token-read and CPU-time budgets per call",
+   "Hostile protocol-respecting session histories and a boundary-value catalogue run on a build with overflow checks and debug assertions (and on the shipped optimisation profile); every host call is wrapped, every error value must leave the interpreter idle with a renderable caret, snapshot invariants run after every call and a liveness probe ends every history. Nested constructs to depth 100000 are probed in child processes on 1/2/8 MiB stacks through the evaluator and the static analyzer, so aborts are observed as signals; two small workloads repeat the catalogue and the histories on the optimised build under valgrind memcheck; a call that never returns is cut off by a token-read budget (hook) or a CPU-time budget of the calling thread and reported, not timed out.",
+   "wasm's 1 MiB stack is emulated by thread size on the ship profile; the unoptimised debug profile is probed in the thorough tier only; Miri runs the harness but is not wired (no unsafe code in the repository; memcheck and the debug-assertion build cover an introduced one).",
    "DESIGN.md §5 C01"),
  "C04": (True,
    "history + executable model (last-writer-wins map) over edit histories with unique payload ids; index-agreement invariant at the snapshot hook",
@@ -80,8 +80,8 @@ CHECKS = {
    "DESIGN.md §5 C08"),
  "C09": (True,
    "per-call monitors: trace/print records and hook counters of token-cursor reads per host call vs M-prog's turn sequence and a work bound",
-   "Every host call of generated programs is observed with tracing on: the per-call sequence must equal M-prog's one-statement-per-turn sequence; for token-soup programs per-call structural bounds hold; token-cursor reads per call are bounded by 30 x (line length + 1) for programs without user functions; non-terminating programs are driven 10000 turns with a break/CONT at a random turn.",
-   "Work = reads of the token cursor (hook counter); wall time never used. Known finding C09-KF1 (DATA index rebuild is O(program)) recognised by its own counter.",
+   "Every host call of generated programs is observed with tracing on: the per-call sequence must equal M-prog's one-statement-per-turn sequence; for token-soup programs per-call structural bounds hold; token-cursor reads per call are bounded by 30 x (line length + 1) for programs without user functions; non-terminating programs are driven 10000 turns with a break/CONT at a random turn; the same programs run through the Web adapter must need as many start/continue calls as the core; single statements over huge and special operand values must return within the token-read budget and the CPU-time budget of the calling thread.",
+   "Work = reads of the token cursor (hook counter) and, for work that reads no tokens, CPU time of the calling thread against a budget 30x above the longest legitimate call; wall time never decides. Known finding C09-KF1 (DATA index rebuild is O(program)) recognised by its own counter.",
    "DESIGN.md §5 C09"),
  "C17": (True,
    "metamorphic self-comparison over the four option configurations + trace/warning records vs M-prog events",
@@ -99,13 +99,13 @@ CHECKS = {
    "Protected positions are known from the generator's construction of the line, so only generated line shapes are covered; insertions use space and tab.",
    "DESIGN.md §5 C12"),
  "C13": (True,
-   "contract monitor over tokenizer executions: range well-formedness + re-tokenization oracle, exhaustive over short atom sequences",
-   "Every line of up to 4 atoms of a 64-atom alphabet (plus a sample of 5-atom lines in the thorough tier, random token lines with line-number prefixes and arbitrary UTF-8 text) is tokenized through the hook; each reported range is checked for bounds, char boundaries, order, non-blank ends, REM/DATA extent, and the range text is re-tokenized alone and must give exactly that token; for failing lines the prefix before the error position must tokenize to exactly the tokens reported. Held on every line executed; exhaustive for the stated bound.",
-   "Trusts that the hook calls the same Tokenizer as the interpreter/analyzer (it does: verif_hooks.rs).",
+   "contract monitor over tokenizer and analyzer executions: range well-formedness + re-tokenization oracle, exhaustive over short atom sequences; analyzer-reported ranges vs tokenizer ranges per file line",
+   "Every line of up to 4 atoms of a 64-atom alphabet (plus a sample of 5-atom lines in the thorough tier, random token lines with line-number prefixes and arbitrary UTF-8 text) is tokenized through the hook; each reported range is checked for bounds, char boundaries, order, non-blank ends, REM/DATA extent, and the range text is re-tokenized alone and must give exactly that token; for failing lines the prefix before the error position must tokenize to exactly the tokens reported; files (indentation, BOM, CR, odd line numbers) go through SourceFileAnalyzer, whose token ranges and mapped tokenization-error range per file line must equal the tokenizer's. Held on every line executed; exhaustive for the stated bound.",
+   "Trusts that the hook calls the same Tokenizer as the interpreter (it does: verif_hooks.rs); the analyzer's use of it is checked, not assumed.",
    "DESIGN.md §5 C13"),
  "C18": (True,
    "online oracle over executions: RNG hooks swept over generator states + PRINT RND scripts vs u128 LCG model",
-   "Every generator state reached by the sweep (thorough: all 2^33; quick: every 128th + boundary windows) is stepped in the real Rng through the verif hooks and compared bit-for-bit with an independent u128 model; seeds up to 2^64-1, argument-sign scripts and the three front ends are compared through PRINT RND(x) on real interpreters. Held-on-what-ran, exhaustive over states in the thorough tier.",
+   "Every generator state reached by the sweep (thorough: all 2^33; quick: every 128th + boundary windows) is stepped in the real Rng through the verif hooks and compared bit-for-bit with an independent u128 model; seeds up to 2^64-1, argument-sign scripts, the three front ends, re-seeded used interpreters and stored programs (draws inside user functions and as arguments of other draws, several RUNs on one interpreter) are compared through PRINT RND(x) on real interpreters. Held-on-what-ran, exhaustive over states in the thorough tier.",
    "Trusts: f64 Display shared by model and implementation; native build of the Web adapter stands in for the wasm artefact.",
    "DESIGN.md §5 C18"),
 }
